@@ -342,6 +342,91 @@ func c20Cases(c *Ctx, n int) []jsCase {
 			gt(v)
 		}
 	}
+	// same-parameter histories in one module instance: one secret, digits, hash and period throughout, and
+	//  (a) timestamps second by second across step boundaries (.., k*p-2, k*p-1, k*p, k*p+1, ..) upwards and downwards,
+	//      and the last second of a step directly followed by the first second of the next (and the reverse);
+	//  (b) a walk over adjacent steps / counters (stepWalkOffsets) and bit-related ones (relatedCounters, below 2^53);
+	//  (c) validation along the same walks with the own code, the window's edges and the first code outside.
+	// Anything the binding remembers between calls (last result, last step, a range "good until") is driven across
+	// the points where it must let go.
+	hrng := c.RNG.Fork(2021)
+	for w := 0; w < n/250+4; w++ {
+		key := hrng.Bytes(20)
+		sec := ref.Base32EncodeNoPad(key)
+		ds := gen.Pick(hrng, []string{"6", "6", "8", "10"})
+		as := gen.Pick(hrng, []string{"SHA1", "SHA1", "SHA256", "SHA512"})
+		d, a := restDigits(ds), restAlgo(as)
+		period := gen.Pick(hrng, []uint64{30, 30, 60, 1, 2, 7, 3600})
+		k0 := uint64(3 + hrng.Intn(1<<20))
+		gt := func(ts uint64, note string) {
+			add(jsCase{Fn: "generateTOTP", Args: []jsArg{sArg(sec), nArg(float64(ts)), sArg(ds), sArg(as), nArg(float64(period))}, Want: ref.TOTP(key, int64(ts), period, d, a), Note: note})
+		}
+		// (a)
+		lo, hi := k0*period-2, (k0+2)*period+2
+		if period > 40 {
+			hi = (k0+1)*period + 2
+		}
+		for ts := lo; ts <= hi; ts++ {
+			if period > 40 && ts > lo+4 && ts+4 < (k0+1)*period {
+				continue // long periods: only the seconds around the boundaries
+			}
+			gt(ts, "same parameters, second by second upwards across step boundaries")
+		}
+		for ts := hi; ts >= lo && ts <= hi; ts-- {
+			if period > 40 && ts > lo+4 && ts+4 < (k0+1)*period {
+				continue
+			}
+			gt(ts, "same parameters, second by second downwards across step boundaries")
+		}
+		for i := 0; i < 12; i++ {
+			k := k0 + uint64(hrng.Intn(50))
+			gt(k*period+uint64(hrng.Intn(int(period))), "same parameters, somewhere inside a step")
+			gt((k+1)*period, "same parameters, then the first second of the next step")
+			gt((k+1)*period-1, "same parameters, then the last second of the step before")
+			gt((k+2)*period-1, "same parameters, last second of a step")
+			gt((k+2)*period, "same parameters, directly followed by the first second of the next step")
+		}
+		// (b)
+		offs := stepWalkOffsets(hrng, 120)
+		for _, off := range offs {
+			step := uint64(int64(k0+300) + off)
+			switch w % 2 {
+			case 0:
+				gt(step*period+uint64(hrng.Intn(int(period))), "same parameters, walk over adjacent steps")
+			default:
+				add(jsCase{Fn: "generateHOTP", Args: []jsArg{sArg(sec), nArg(float64(step)), sArg(ds), sArg(as)}, Want: ref.HOTP(key, step, d, a), Note: "same parameters, walk over adjacent counters"})
+			}
+		}
+		rel := relatedCounters(hrng, k0, (1<<53-3600)/period)
+		for i, v := range rel {
+			if i > 160 {
+				break
+			}
+			if w%2 == 0 {
+				add(jsCase{Fn: "generateHOTP", Args: []jsArg{sArg(sec), nArg(float64(v)), sArg(ds), sArg(as)}, Want: ref.HOTP(key, v, d, a), Note: "same parameters, bit-related counters"})
+			} else {
+				gt(v*period+uint64(hrng.Intn(int(period))), "same parameters, bit-related steps")
+			}
+		}
+		// (c)
+		skew := uint64(hrng.Intn(4))
+		for i, off := range offs {
+			if i > 60 {
+				break
+			}
+			step := uint64(int64(k0+300) + off)
+			for j, x := range []uint64{step, step - skew, step + skew, step + skew + 1, step - skew - 1} {
+				code := ref.HOTP(key, x, d, a)
+				_, want := ref.HOTPWindow(key, step, skew, d, a)[code]
+				note := fmt.Sprintf("same parameters, validation walk, code %d of (own, low edge, high edge, above, below), window %d", j, skew)
+				if w%2 == 0 {
+					add(jsCase{Fn: "validateTOTP", Args: []jsArg{sArg(sec), sArg(code), nArg(float64(step*period + uint64(hrng.Intn(int(period))))), sArg(ds), sArg(as), nArg(float64(skew)), nArg(float64(period))}, Want: fmt.Sprint(want), Note: note})
+				} else {
+					add(jsCase{Fn: "validateHOTP", Args: []jsArg{sArg(sec), sArg(code), nArg(float64(step)), sArg(ds), sArg(as), nArg(float64(skew))}, Want: fmt.Sprint(want), Note: note})
+				}
+			}
+		}
+	}
 	return out
 }
 
